@@ -4,7 +4,8 @@
            index as the search's answer, ORawWrite, ORawFree): memid.initially_zero / initially_committed of the result,
            blocks_inuse and blocks_dirty after every op; the model's ghost of returned memory may say zero only if the
            real memory is zero (T ghost).  blocks_committed is compared after allocations and re-read from the dump
-           after every op (the purge schedule is Model/Purge.v's subject; no flag depends on it).
+           after every op (the purge schedule is Model/Purge.v's subject; no flag depends on it).  After a purge, every free
+           block that really reads as zero is an OArenaPurge with pz = true (the ghost becomes zero, blocks_dirty stays).
    mode P  the page of the `I` record becomes the model state (flags, lists, ghost := the real contents); every
            _mi_page_malloc_zero / store / mi_free / _mi_page_free_collect / mi_page_extend_free is one `Zero.step`; the
            returned block index, capacity, used, free, local_free, free_is_zero, is_zero_init must agree exactly after every
@@ -36,7 +37,7 @@ let () = Modes.register "zero" (fun records mismatches ->
   let st = ref Zero.init in
   let mode = ref "?" in
   let steps = ref 0 and flagchecks = ref 0 and ghostchecks = ref 0 and ghostzero = ref 0 and segallocs = ref 0 and pageallocs = ref 0
-  and recreated = ref 0 and segzero = ref 0 and pagesflagged = ref 0 and knowb = ref 0 in
+  and recreated = ref 0 and segzero = ref 0 and pagesflagged = ref 0 and knowb = ref 0 and purged = ref 0 in
   let step_ what (o : Zero.op) : Zero.out option =
     incr steps;
     match Zero.step v !st o with
@@ -223,7 +224,12 @@ let () = Modes.register "zero" (fun records mismatches ->
          L.iter (check_arena opno true) rest
        | "R", "w", [ s ] -> ignore (step_ "ORawWrite" (Zero.ORawWrite (n_of_string s))); L.iter (check_arena opno false) rest
        | "R", "f", [ s; allc ] -> ignore (step_ "ORawFree" (Zero.ORawFree (n_of_string s, b01 allc))); L.iter (check_arena opno false) rest
-       | "R", "p", _ -> L.iter (check_arena opno false) rest
+       | "R", "p", _ ->
+         (* a free block that reads as zero after the purge: the kernel's answer pz = true of mi_arena_purge (blocks_dirty stays) *)
+         L.iter (function
+             | [ "T"; "purged"; _; ai; b; "1" ] -> incr purged; ignore (step_ ("OArenaPurge op " ^ opno) (Zero.OArenaPurge (n_of_string ai, n_of_string b, n 1, true, false)))
+             | _ -> ()) rest;
+         L.iter (check_arena opno false) rest
        (* ---------------- P *)
        | "P", "I", _ ->
          L.iter (fun toks -> match toks with
@@ -268,5 +274,5 @@ let () = Modes.register "zero" (fun records mismatches ->
       | _ -> if !cur <> [] then cur := toks :: !cur
     done
   with End_of_file -> ());
-  Printf.printf "STATS zero mode=%s steps=%d flag_checks=%d ghost_checks=%d ghost_zero=%d seg_allocs=%d zero_memids=%d page_allocs=%d recreated=%d flagged_pages=%d know_b=%d\n"
-    !mode !steps !flagchecks !ghostchecks !ghostzero !segallocs !segzero !pageallocs !recreated !pagesflagged !knowb)
+  Printf.printf "STATS zero mode=%s steps=%d flag_checks=%d ghost_checks=%d ghost_zero=%d seg_allocs=%d zero_memids=%d page_allocs=%d recreated=%d flagged_pages=%d know_b=%d purged_zero=%d\n"
+    !mode !steps !flagchecks !ghostchecks !ghostzero !segallocs !segzero !pageallocs !recreated !pagesflagged !knowb !purged)
